@@ -117,11 +117,16 @@ Definition has_scheme (line : str) : bool :=
 
 (* exceptions other than ET.ParseError that ET.iterparse was observed / documented to
    raise: LookupError (unknown or non-text encoding in the XML declaration) and
-   ValueError (incl. UnicodeError, UnicodeDecodeError: "multi-byte encodings are not
-   supported", idna/punycode/undefined codecs). *)
-Inductive xml_exn : Type := XLookupError | XValueError.
+   ValueError and its subclasses UnicodeError / UnicodeDecodeError (multi-byte encodings
+   are not supported; idna, punycode, undefined codecs).  UnicodeDecodeError is kept
+   apart only because the observation enum does. *)
+Inductive xml_exn : Type := XLookupError | XValueError | XUnicodeDecodeError.
 Definition xml_exn_to_exn (e : xml_exn) : exn :=
-  match e with XLookupError => LookupError | XValueError => ValueError end.
+  match e with
+  | XLookupError => LookupError
+  | XValueError => ValueError
+  | XUnicodeDecodeError => UnicodeDecodeError
+  end.
 
 (* element tree: tag, attributes, text, children *)
 Inductive xml : Type :=
@@ -447,5 +452,6 @@ Fixpoint pls_items (p : positive) (files : list str) : list (str * str) :=
   | [] => []
   | f :: t => (file_key p, f) :: pls_items (Pos.succ p) t
   end.
-Definition pls_doc (count_text : str) (files : list str) : ini_out :=
-  IniSections [] [(lit "playlist", (NUMBEROFENTRIES, count_text) :: pls_items 1 files)].
+Definition pls_doc_named (name count_text : str) (files : list str) : ini_out :=
+  IniSections [] [(name, (NUMBEROFENTRIES, count_text) :: pls_items 1 files)].
+Definition pls_doc := pls_doc_named (lit "playlist").
